@@ -15,9 +15,9 @@
 
    Add(0): Go computes i = int(0)-1 = -1, byteIdx = -1/8 = 0 (truncation), bitIdx = -1%8 = -1;
    after a possible extend to one byte, isSet evaluates 1 << -1, a run-time panic (negative shift
-   amount). Contains(0) returns false on an empty field and panics the same way otherwise.
-   Both are outside the property (ids start at 1) and are modelled as [Panic] so the
-   correspondence records what Go does. *)
+   amount). It is outside the property (ids start at 1) and is modelled as [Panic] so the
+   correspondence records what Go does. Contains(0) returns false on every field (explicit guard
+   `if id == 0 { return false }`, /repo commit fd14b99). *)
 From HS Require Import Base.Prelude.
 Open Scope N_scope.
 
@@ -63,7 +63,7 @@ Definition add (id : N) (bf : bitfield) : result bitfield :=
     Ok (set_bit (mkBF d (bf_len bf)) byteIdx bitIdx).
 
 Definition contains (id : N) (bf : bitfield) : result bool :=
-  if id =? 0 then (if (length (bf_data bf) <=? 0)%nat then Ok false else Panic)
+  if id =? 0 then Ok false
   else if beyond (bf_data bf) id then Ok false
   else Ok (is_set (bf_data bf) (byte_idx id) (bit_idx id)).
 
